@@ -20,6 +20,18 @@ claims={
    text="Deductive proof (unbounded, all name lists over abstract strings): ValidPath returns >= 0 exactly for lists whose elements are non-empty, not '.', separator-free and have '..' only as a leading run, and then returns the length of that run; NormalizePath returns -1 exactly when some element has a separator, otherwise a fresh list of the shape '..'^lo ++ plain names with lo returned, is the identity on lists already of that shape (so it is idempotent) and never modifies its argument; WalkName accepts exactly the valid lists whose '..' run does not exceed the directory depth (never climbs above root) and otherwise returns dir and an error; CreateName accepts exactly plain names; ToWalk yields only safe names, '..' only leading, none for absolute paths. All index/slice sites are obligations. Level 'other' because two clauses are not decided: that path.Join's result is the stepwise resolution in canonical form (library lemma, not proved) and NormalizePath's agreement with stepwise resolution of '..' (fold equivalence not yet under contract).",
    note=TB+"strings.ContainsAny/Count, path.Join/IsAbs are uninterpreted deterministic functions; their values on string literals are computed by running the real functions; two library lemmas assumed (path.IsAbs(p) => len(p) >= 1, strings.Count >= 0).",
    technique="contract-based deductive verification (WP over go/ssa, loop invariants, SMT)"),
+ "C08":dict(level="proof",design="§3-C08",
+   text="Deductive proof that every public method of the server session (Attach, Auth, Walk, Open, Create, Read, Write, Stat, WStat, Clunk, Remove, Stop and the helpers getRef/newRef/delRef/openLocked) preserves the fid-table invariant (well-formed, injective, bound entries distinct) and has the statement's clause as its postcondition over the WHOLE table view, for every fid value, every name list and every outcome of the FileSys/Dirent/File calls (arbitrary results and errors): unbound or NOFID => error and table unchanged; duplicate target => error, table unchanged; only a complete walk binds (new fid gets a fresh entry, all other fids identical; in place: the fid moves and keeps its open file); Clunk/Remove always unbind and leave all others identical; Open at most once; Create rebinds the fid to the new entry, open with the given mode; Read/Write need an open file whose mode&3 permits them. Histories follow by induction over the per-call contracts.",
+   note=TB+"sync.Map/sync.Mutex extern contracts (atomic map, ledger for locks); environment contracts for FileSys/Dirent/File (arbitrary results; they cannot touch the session's table; FileSys.Attach returns a non-nil entry on success); sequential (quiescent) calls - concurrency is C14.",
+   technique="contract-based deductive verification (WP over go/ssa, quantified table invariant, SMT)"),
+ "C13":dict(level="proof",design="§3-C13",
+   text="Deductive proof of a release ledger on the same session functions: every entry bound to a fid is issued and not released (table invariant); Dirent.Clunk/Remove require 'not yet released' (so a second release or a use after release is a failed precondition at that call site) and every other Dirent call requires it too; Clunk/Remove release exactly the fid's entry and nothing else; a complete in-place walk releases exactly the old entry; a successful Create consumes the parent entry and binds the new one; failing paths release nothing that stays bound; Stop leaves no fid bound and has released every entry that was bound (loop over sync.Map.Range with an invariant over the visited set).",
+   note=TB+"Environment contract: entries handed out by FileSys.Attach / Dirent.Walk / Dirent.Create are new objects; Dirent.Create consumes its receiver on success (filesys.go). One genuine defect repaired (fix: ad56075, create-then-opendir failure path). Not covered: Stop racing in-flight handlers (that is C11).",
+   technique="contract-based deductive verification (ghost resource ledger, SMT)"),
+ "C14":dict(level="other",design="§3-C14",
+   text="Thread-local lock-discipline facts proved deductively for every session method and every FileSys outcome, valid under any interleaving: (a) at every return no SFid that is or was in the table is left locked; (b') every Unlock is of a held mutex, no Lock of a mutex already held by the same operation (self-deadlock); (c) no blocking Lock while another lock is held unless the mutex belongs to an object allocated by this call and not yet published (so no lock-order cycle between operations). Together: no fid is left locked and no operation can deadlock on the session's own locks if FileSys calls return. Level 'other': atomicity per fid / linearizability is argued from these facts plus the atomic sync.Map operations, not machine-checked, and data-race freedom is not decided by this technique.",
+   note=TB+"Mutex/sync.Map extern contracts; FileSys calls assumed to return; two genuine defects repaired (fix: 2c82984 Attach lock leak, ad56075 Create self-deadlock).",
+   technique="contract-based deductive verification (ghost lock ledger, SMT)"),
 }
 reasons={}
 checks=[]
